@@ -226,12 +226,12 @@ def check(ctx):
                    f"also for the default n={dv} that stands for 'all "
                    f"poses': [:{dv}] drops the last {-dv} pose pair(s) from "
                    f"the alignment", key="C04.2:first-n")
-            return
-        ctx.require(sliced and dv is None, "test of n against its 'all "
-                    "poses' marker not found in align (unknown idiom)")
-        ctx.ob("C04.2", ums[0], True,
-               "align: [:n] with the default n=None selects all poses",
-               key="C04.2:first-n:none-default")
+        else:
+            ctx.require(sliced and dv is None, "test of n against its 'all "
+                        "poses' marker not found in align (unknown idiom)")
+            ctx.ob("C04.2", ums[0], True,
+                   "align: [:n] with the default n=None selects all poses",
+                   key="C04.2:first-n:none-default")
         n_cases = (False,)
         n_atom = T("never")
         sentinel = const(None)
